@@ -122,6 +122,26 @@ func Trees(big bool, maxChain int) []Tree {
 			}
 		}
 	}
+	// containers of EMPTY structs: every element occupies a single byte, the smallest encoding any value has (kills
+	// "an element needs at least N bytes" shortcuts)
+	es := ref.Value{T: ref.STRUCT}
+	for _, n := range []int{1, 2, 5, 40} {
+		l := ref.Value{T: ref.LIST, Elem: ref.STRUCT}
+		m := ref.Value{T: ref.MAP, Key: ref.STRUCT, Elem: ref.STRUCT}
+		mi := ref.Value{T: ref.MAP, Key: ref.BYTE, Elem: ref.STRUCT}
+		for i := 0; i < n; i++ {
+			l.L = append(l.L, es)
+			m.L = append(m.L, es, es)
+			mi.L = append(mi.L, ref.Value{T: ref.BYTE, I: uint64(i)}, es)
+		}
+		st := l
+		st.T = ref.SET
+		add(fmt.Sprintf("tiny/list<struct{}>x%d", n), l)
+		add(fmt.Sprintf("tiny/set<struct{}>x%d", n), st)
+		add(fmt.Sprintf("tiny/map<struct{},struct{}>x%d", n), m)
+		add(fmt.Sprintf("tiny/map<byte,struct{}>x%d", n), mi)
+		add(fmt.Sprintf("tiny/struct{list<struct{}>x%d}", n), ref.Value{T: ref.STRUCT, F: []ref.Field{{ID: 1, V: l}}})
+	}
 	// structs: none, one field of every type, all ordered pairs of field types
 	add("struct{}", ref.Value{T: ref.STRUCT})
 	for i, t := range ref.T11 {
